@@ -361,6 +361,47 @@ Section Engine.
   Qed.
 End Engine.
 
+(* ------------------------------------------------------------------ the glue: piecewise matching *)
+
+(* SegmentedStringMatcher::MatchAux without prefix matching, and PathMatcher's clause loop, are exactly
+   "as many pieces as matchers, each piece matched by its matcher (no matcher = "*" = anything)" *)
+Lemma seg_match_aux_exact : forall segs toks,
+  seg_match_aux segs toks false = true <-> Forall2 (fun m t => clause_ok1 m t = true) segs toks.
+Proof.
+  induction segs as [|m segs IH]; intros toks; cbn [seg_match_aux].
+  - destruct toks; split; intros H; try constructor; try discriminate; inversion H.
+  - destruct toks as [|t toks]; [split; intros H; [discriminate | inversion H]|].
+    rewrite andb_true_iff, IH. split.
+    + intros [H1 H2]. constructor; assumption.
+    + intros H. inversion H; subst. split; assumption.
+Qed.
+
+Lemma seg_match_aux_prefix : forall segs toks,
+  seg_match_aux segs toks true = true <->
+  (length segs <= length toks)%nat /\ Forall2 (fun m t => clause_ok1 m t = true) segs (firstn (length segs) toks).
+Proof.
+  induction segs as [|m segs IH]; intros toks; cbn [seg_match_aux length firstn].
+  - destruct toks; split; intros; try reflexivity; split; try constructor; apply Nat.le_0_l.
+  - destruct toks as [|t toks]; cbn [length firstn].
+    + split; [discriminate | intros [H _]; inversion H].
+    + rewrite andb_true_iff, IH. split.
+      * intros [H1 [H2 H3]]. split; [apply le_n_S; exact H2 | constructor; assumption].
+      * intros [H1 H2]. inversion H2; subst. split; [assumption|]. split; [apply le_S_n; exact H1 | assumption].
+Qed.
+
+Lemma clauses_match_spec : forall ms toks,
+  clauses_match ms toks = true <->
+  (length ms <= length toks)%nat /\ Forall2 (fun m t => clause_ok1 m t = true) ms (firstn (length ms) toks).
+Proof.
+  induction ms as [|m ms IH]; intros toks; cbn [clauses_match length firstn].
+  - split; intros; try reflexivity. split; [apply Nat.le_0_l | constructor].
+  - destruct toks as [|t toks]; cbn [length firstn].
+    + split; [discriminate | intros [H _]; inversion H].
+    + rewrite andb_true_iff, IH. split.
+      * intros [H1 [H2 H3]]. split; [apply le_n_S; exact H2 | constructor; assumption].
+      * intros [H1 H2]. inversion H2; subst. split; [assumption|]. split; [apply le_S_n; exact H1 | assumption].
+Qed.
+
 (* ------------------------------------------------------------------ an example pattern for the non-vacuity checks *)
 
 (* a well-formed pattern using every construct:  a?*[^b-dx](\*|e,f.)  *)
